@@ -23,6 +23,7 @@ from __future__ import annotations
 
 import argparse
 import array
+import gc
 import importlib
 import json
 import os
@@ -179,6 +180,8 @@ def main() -> int:
             rec.t_first = time.time()
             rec.cpu_first = time.process_time()
         rec.execs += 1
+        if rec.execs & 0xFF == 0:
+            gc.collect()  # cyclic GC only here (see gc.disable() below): by execution count, not by allocation count
         fctx.nt = False
         try:
             one_input(data, rec)
@@ -195,6 +198,13 @@ def main() -> int:
             rec.stats(final=n > runs, hashes=n % HASH_FLUSH_EVERY == 0 or n > runs)
 
     rec.stats()  # a campaign that dies before its first execution still leaves a line
+    # Finalisers of the code under test (XKNX.__del__ ...) run when the cyclic collector does; with the
+    # automatic collector their coverage would be attributed to whatever input happens to be executing.
+    # gc.freeze(): everything loaded so far (xknx, the check, Hypothesis) leaves the collector's
+    # view, so the periodic collections only look at what the executions allocated.
+    gc.collect()
+    gc.freeze()
+    gc.disable()
     argv = [sys.argv[0], *lf_args, *extra, *corpora]
     atheris.Setup(argv, test_one_input)
     atheris.Fuzz()
